@@ -154,6 +154,7 @@ package state
 //@   ensures err != nil ==> result0 == nil
 //@   ensures err == nil ==> fresh(result0)
 //@   ensures err == nil ==> QV(&result0.MinTransactBalance) >= 0 && QV(&result0.CommissionScheduleRules.MinCommissionRate) >= 0 && QV(&result0.MinDelegationAmount) >= 0
+//@   ensures err == nil ==> QV(&result0.RewardFactorEpochSigned) >= 0 && QV(&result0.RewardFactorBlockProposed) >= 0
 //@   ensures err == nil ==> QV(&result0.FeeSplitWeightPropose) >= 0 && QV(&result0.FeeSplitWeightVote) >= 0 && QV(&result0.FeeSplitWeightNextPropose) >= 0
 //@   ensures err == nil && ufb("feeSplitNotAllZero", s) ==> QV(&result0.FeeSplitWeightPropose) + QV(&result0.FeeSplitWeightVote) + QV(&result0.FeeSplitWeightNextPropose) > 0
 //@   note stored parameters passed ConsensusParameters.SanityCheck (genesis and every parameter change): weights are valid quantities and not all zero
@@ -346,3 +347,24 @@ package state
 //@   modifies nothing
 //@   ensures (err == nil) == ufb("stakeClaimsCovered", c, addr)
 //@   note read-only: compares the entity's escrow balance with the sum of the thresholds of its recorded stake claims
+
+// ---- epoch transition helpers (C05) ----
+
+//@ func ImmutableState.ExpiredDebondingQueue
+//@   trusted
+//@   modifies nothing
+//@   ensures err != nil ==> len(result0) == 0
+//@   ensures err == nil ==> forall i int :: 0 <= i && i < len(result0) ==> result0[i] != nil && result0[i].Delegation != nil && QV(&result0[i].Delegation.Shares) >= 0
+//@   note iterates the debonding queue keys up to the epoch and loads each debonding delegation (stored shares are valid quantities)
+
+//@ func ImmutableState.EpochSigning
+//@   trusted
+//@   modifies nothing
+//@   ensures err != nil ==> result0 == nil
+//@   ensures err == nil ==> result0 != nil
+
+//@ func MutableState.ClearEpochSigning
+//@   trusted
+//@   modifies GWrites, abciAPI.GTreeW
+//@   ensures abciAPI.OnlyTree(s.ms)
+//@   note removes the per-epoch signing record; no balance is stored there
